@@ -16,7 +16,7 @@ Ev == Events(h)[l]
 More == l <= Len(Events(h))
 Step == l' = l + 1 /\ h' = h
 ObsKeys == {Ev.st[i][1] : i \in DOMAIN Ev.st}
-DObs == {i \in ExpIdx(entries, now) : entries[i].k \notin ObsKeys}
+DCand == {i \in ExpIdx(entries, now) : entries[i].k \notin ObsKeys}   \* expired entries that are no longer shown
 ObsP == /\ Ev.ub = FALSE
         /\ Used(entries') = Ev.used /\ Len(entries') = Ev.n /\ KeySet(entries') = ObsKeys /\ Len(Ev.st) = Ev.n
         /\ limit' = Ev.lim /\ now' = Ev.now
@@ -25,13 +25,18 @@ ObsP == /\ Ev.ub = FALSE
 Proj(es) == [i \in DOMAIN es |-> <<es[i].k, es[i].kl, es[i].v, es[i].vm, es[i].exp, es[i].mem>>]
 ObsI == ObsP /\ Proj(entries') = Ev.st
 
-Act(I) == \/ Ev.e = "Get" /\ (IF I THEN IGet(Ev.k, Ev.ret) ELSE GetWith(DObs, Ev.k, Ev.ret))
-          \/ Ev.e = "Del" /\ (IF I THEN IDel(Ev.k) ELSE DelWith(DObs, Ev.k))
-          \/ Ev.e = "Add" /\ (IF I THEN IAdd(Ev.k, Ev.kl, Ev.v, Ev.vm, Ev.ttl, Ev.ret)
-                                   ELSE AddWith(DObs, Ev.k \in ObsKeys, Ev.k, Ev.kl, Ev.v, Ev.vm, Ev.ttl, Ev.ret))
-          \/ Ev.e = "SetLimit" /\ (IF I THEN ISetLimit(Ev.arg) ELSE SetLimitWith(DObs, Ev.arg))
-          \/ Ev.e = "Tick" /\ Tick(Ev.dt)
-TNextP == More /\ Act(FALSE) /\ ObsP /\ Step
-TNextI == More /\ Act(TRUE) /\ ObsI /\ Step
+(* P: each vanished expired entry either was dropped as expired (in D) or was purged as part of the LRU suffix *)
+ActP == \E D \in SUBSET DCand :
+          \/ Ev.e = "Get" /\ GetWith(D, Ev.k, Ev.ret)
+          \/ Ev.e = "Del" /\ DelWith(D, Ev.k)
+          \/ Ev.e = "Add" /\ AddWith(D, Ev.k \in ObsKeys, Ev.k, Ev.kl, Ev.v, Ev.vm, Ev.ttl, Ev.ret)
+          \/ Ev.e = "SetLimit" /\ SetLimitWith(D, Ev.arg)
+ActI == \/ Ev.e = "Get" /\ IGet(Ev.k, Ev.ret)
+        \/ Ev.e = "Del" /\ IDel(Ev.k)
+        \/ Ev.e = "Add" /\ IAdd(Ev.k, Ev.kl, Ev.v, Ev.vm, Ev.ttl, Ev.ret)
+        \/ Ev.e = "SetLimit" /\ ISetLimit(Ev.arg)
+TTick == Ev.e = "Tick" /\ Tick(Ev.dt)
+TNextP == More /\ (ActP \/ TTick) /\ ObsP /\ Step
+TNextI == More /\ (ActI \/ TTick) /\ ObsI /\ Step
 Mark == MarkAccepted(h, l)
 ====
